@@ -470,7 +470,10 @@ def fam_lag8(w, acc):
     d[s:, 1] = d[:-s, 0]
     acc.case(wkey(w), True, sample=w)
     with quiet():
-        val, lag = _ca(d).cross_correlation(tau_max=tm, lag_mode="max")
+        try:
+            val, lag = _ca(d).cross_correlation(tau_max=tm, lag_mode="max")
+        except ValueError:
+            return      # a lag range the int8 lag matrix cannot hold is rejected: allowed (repaired finding #18)
     if int(lag[0, 1]) != s:
         acc.fail("cross_correlation/lag-int8-range", w,
                  f"column 1 is column 0 delayed by {s} samples (cc={val[0, 1]!r}); reported lag "
